@@ -198,8 +198,11 @@ def run(ctx: vlib.Ctx):
     ctx.trusted += ["TyModel.v (cu/uk: hand-written model of unpack.py registry order incl. iteration of str/dict inputs, tuple surplus, field lookup, "
                     "NamedTuple positions with trailing defaults, TypedDict required/optional keys) "
                     "tied by vm_compute correspondence; stdlib constructors (int/float/str, fromisoformat, UUID, Decimal, ..., decodebytes, Enum()) are oracle tables"]
-    ctx.assumptions += ["abstract collections, tuples with unpacked segments, unions/literals are decided by the oracle only; NamedTuple (as_list form) and TypedDict are "
-                        "inside the Coq grammar (C03_unpack_ref, C03_well_typed + correspondence incl. inputs with one nested sequence cut short); sequence-like "
+    ctx.assumptions += ["abstract collections, unions/literals are decided by the oracle only; NamedTuple (as_list form), TypedDict and tuples with an unpacked segment are "
+                        "inside the Coq grammar (C03_unpack_ref = the as-generated reading of the reference on every input; C03_unpack_ref_partial = the documented reference "
+                        "unless it says 'too few items'; the unguarded statement is refuted: known finding unpacked-tuple-short-input; C03_well_typed; correspondence incl. "
+                        "inputs with one nested sequence cut short and every prefix of an unpacked-tuple input); constant positions are recursive (fixed tuples of constants, "
+                        "default-less NamedTuples of constants); nested Unpack / TypeVarTuple segments are oracle only; sequence-like "
                         "inputs of a NamedTuple/fixed tuple other than list/tuple/str (bytes, dicts with integer keys, NamedTuple instances) are not modelled; "
                         "namedtuple_as_dict and generic NamedTuples/TypedDicts are oracle only"]
 
